@@ -210,3 +210,94 @@ class FD:
             if nxt is None:
                 raise Top()      # pruned edge
             b = nxt
+
+
+def values_at(P, fn, target_ev, expr, env0, max_states=5000):
+    """Set-of-constants abstract interpretation of fn from its entry to target_ev:
+    locals that can be evaluated are tracked, conditions that cannot be
+    evaluated fork both ways, paths that return before the target are dropped.
+    Returns the set of values `expr` takes at the target (None in the set when
+    some path leaves it unknown).  Loops are cut by the state budget."""
+    fd = FD(P)
+    out = set()
+    seen = set()
+    work = [(fn.entry, dict(env0))]
+    n = 0
+    while work:
+        b, env = work.pop()
+        key = (b.id, tuple(sorted(env.items())))
+        if key in seen:
+            continue
+        seen.add(key)
+        n += 1
+        if n > max_states:
+            out.add(None)
+            break
+        stop = False
+        for ev in b.events:
+            if ev is target_ev:
+                try:
+                    out.add(fd.ev(fn, expr, env))
+                except (Top, ZeroDivisionError):
+                    out.add(None)
+                stop = True
+                break
+            if ev.k == 'decl':
+                try:
+                    if ev.e is None:
+                        raise Top()
+                    env[ev.name] = wrap(fd.ev(fn, ev.e, env), ev.t)
+                except (Top, ZeroDivisionError):
+                    env.pop(ev.name, None)
+            elif ev.k == 'store':
+                lhs, rhs, o = ev.store_parts()
+                l0 = strip_casts(lhs)
+                name = l0.get('name') if l0.get('op') == 'ref' else None
+                if name is None:
+                    from .ir import path_of
+                    p = path_of(l0)
+                    name = str(p) if p is not None else None
+                if name is None:
+                    continue
+                try:
+                    if rhs is None:
+                        env[name] = wrap(env[name] + (1 if '++' in o else -1), l0.get('t'))
+                    elif o == '=':
+                        env[name] = wrap(fd.ev(fn, rhs, env), l0.get('t'))
+                    else:
+                        fake = {'op': 'bin', 'o': o[:-1], 't': ev.e.get('ct') or l0.get('t'), 'k': [l0, rhs]}
+                        env[name] = wrap(fd.ev(fn, fake, env), l0.get('t'))
+                except (Top, ZeroDivisionError, KeyError):
+                    env.pop(name, None)
+            elif ev.k == 'call':
+                # locals passed by address are clobbered
+                for a in ev.args:
+                    a0 = strip_casts(a)
+                    if a0.get('op') == 'un' and a0['o'] == '&':
+                        inner = strip_casts(a0['k'][0])
+                        if inner.get('op') == 'ref':
+                            env.pop(inner['name'], None)
+            elif ev.k == 'ret':
+                stop = True
+                break
+        if stop:
+            continue
+        if len(b.succs) == 1:
+            work.append((b.succs[0][0], env))
+            continue
+        if not b.succs:
+            continue
+        cv = None
+        try:
+            cv = fd.ev(fn, b.cond, env)
+        except (Top, ZeroDivisionError):
+            cv = None
+        for s, label in b.succs:
+            if label in ('T', 'F') and cv is not None:
+                if (label == 'T') != bool(cv):
+                    continue
+            elif isinstance(label, tuple) and label[0] == 'case' and cv is not None:
+                if cv not in label[1] and not label[2]:
+                    continue
+            work.append((s, dict(env)))
+    return out
